@@ -72,11 +72,7 @@ Theorem C02_accessor_type_iff_semantics : forall scope sfns z,
   let p := create_cpp_portitf scope sfns z in
   (zp_sem z = STS -> q_ids (t_fqn (fn_ret (cp_accessor p))) = sfns ++ [L "Sts"] /\ cp_target p = (m_encapsulee ++ L "." ++ po_name (zp_port z))%list /\ cp_member p = None) /\
   (zp_sem z = MTS -> q_ids (t_fqn (fn_ret (cp_accessor p))) = sfns ++ [L "Mts"] /\ exists m, cp_member p = Some m /\ cp_target p = snd m).
-Proof.
-  intros scope sfns z p. unfold p, create_cpp_portitf. split; intros H; rewrite H.
-  - repeat split; reflexivity.
-  - destruct (zp_mc z); (split; [reflexivity|eexists; split; reflexivity]).
-Qed.
+Proof. exact accessor_type_iff_semantics. Qed.
 Print Assumptions C02_accessor_type_iff_semantics.
 
 Example demo_queue :
